@@ -38,6 +38,27 @@ RULES = {
 }
 
 
+def bit_acceptance(chk, ctx):
+    """Both flag values are encodable: the bit encoder has a return path
+    for False and for True (all 2^k flag combinations of a method are then
+    accepted, the packing loop being unconditional)."""
+    from .. import codec, isets
+    bfi = ctx.prog.module('encode').functions.get('bit')
+    if bfi is None:
+        return
+    P = Sym('typed', Sym('param', 'value'), ('bool',), None)
+    args = [P, Sym('typed', Sym('param', 'byte'), ('int',), (0, 255)),
+            Sym('typed', Sym('param', 'position'), ('int',), (0, 7))]
+    _it, outs = codec.run(ctx.prog, bfi, args)
+    acc = L.accepted_values(outs, P)
+    missing = isets.ISet.range(0, 1).inter(acc.complement())
+    chk.ob('C01.P', 'encode.bit accepted values', missing.is_empty(),
+           'False and True both have a return path' if missing.is_empty()
+           else 'flag value(s) %s are refused by the bit encoder\'s own '
+           'guard (admitted: %s)' % (missing, acc),
+           site='%s:%d' % (bfi.module.relpath, bfi.node.lineno))
+
+
 def constructor_passthrough(chk, ctx, ci):
     from .. import ctors
     st_it = ctx.static()
@@ -112,6 +133,10 @@ def analyse_class(chk, ctx, ci, axioms=None):
     okc, whyc = L.channel_acceptance(e['outs'])
     if not okc:
         chk.ob('C01.E', q + ' channels', False, whyc, site=site)
+    caps = L.size_cap_refusals(e['outs'])
+    if caps:
+        chk.ob('C01.E', q + ' size', False, 'a frame is refused for its '
+               'encoded size: %s' % '; '.join(caps[:2]), site=site)
     payload = env['payload']
     # index prefix
     idx_part = payload[0] if payload else None
@@ -332,18 +357,39 @@ def run(chk, ctx):
     from .. import wire
     axioms = wire.build_axioms(ctx)
     seen = set()
+    keys_of = {}
+    for k_, v_ in mapping:
+        if hasattr(v_, 'qualname'):
+            keys_of.setdefault(v_.qualname, []).append(k_)
+    st0 = ctx.static()
     for ci in classes:
         if ci.qualname in seen:
             continue
         seen.add(ci.qualname)
         default_construction(chk, ctx, ci)
         constructor_passthrough(chk, ctx, ci)
+        # the index a class writes is the key it is registered under (the
+        # decoder builds the object from INDEX_MAPPING[index read])
+        own = st0.class_attr(ci, 'index')
+        if own not in keys_of.get(ci.qualname, []):
+            tgt = dict((k_, v_) for k_, v_ in mapping).get(own)
+            chk.ob('C01.I', ci.short + ' index', False,
+                   'the class writes index %s but is registered under %s: '
+                   'its own encoding is decoded as %s' % (
+                       '0x%08X' % own if isinstance(own, int) else own,
+                       ', '.join('0x%08X' % k_ for k_ in
+                                 keys_of.get(ci.qualname, [])),
+                       tgt.short if hasattr(tgt, 'short') else
+                       'an unknown method (UnmarshalingException)'),
+                   site='%s:%d' % (ci.module.relpath, ci.node.lineno))
+            continue
         analyse_class(chk, ctx, ci, axioms)
     # classes deriving from Frame that are not reachable through the mapping
     for ci in ctx.method_classes():
         if ci.qualname not in seen:
             chk.ob('C01.I', ci.short, False,
                    'method class is not reachable through INDEX_MAPPING')
+    bit_acceptance(chk, ctx)
     chk.floor('C01.L', 64, 'classes', count=len(seen))
     chk.floor('C01.D', 64, 'constructors')
     chk.floor('C01.C', 120, 'constructor arguments')
